@@ -87,6 +87,7 @@ def check(ctx):
             'res /e/{ \'id str `format: uuid` }?{ \'since str `format: date-time` } on get -> <headers={ \'Date str `format: date-time` }, uri>;\n',
         ]
         ncorpus = len(corpus)
+        ps += progs.shared_corpus()
         for s in corpus:
             ps.insert(0, {"mods": {"file:///w/main.oal": s}, "main": "file:///w/main.oal", "features": ["corpus"], "ast": None})
     progs.feature_stats(ctx, ps)
